@@ -1,22 +1,22 @@
-(* Proof/ChanPipeSpec.v -- the invariants hold along every schedule; the C04
-   statements and their executable forms. *)
+(* Proof/ChanPipeSpec.v -- the invariants hold along every schedule; the C04 statements. *)
 From Coq Require Import List Arith Bool ZArith Lia.
-From WV Require Import Model.ChanPipe Proof.ChanPipeBase Proof.ChanPipeOwn.
+From WV Require Import Model.ChanPipe Proof.ChanPipeBase Proof.ChanPipeOwn Proof.ChanPipeLog
+                       Proof.ChanPipeOut Proof.ChanPipeOutStep Proof.ChanPipeQuiet.
 Import ListNotations.
 
 Section Run.
 Variable P : params.
 
-Definition Inv (st : state) : Prop := L0 st /\ L1 st.
+Definition Inv (st : state) : Prop := L0 st /\ L1 st /\ L2 st /\ L3 P st /\ L4 P st.
 
 Lemma Inv_init : Inv init.
-Proof. split; [apply L0_init | apply L1_init]. Qed.
+Proof. split; [apply L0_init | split; [apply L1_init | split; [apply L2_init | split; [apply L3_init | apply L4_init]]]]. Qed.
 
 Lemma Inv_step : forall st c st' l, Inv st -> step P st c = Some (st', l) -> Inv st'.
 Proof.
-  intros st c st' l [H0 H1] Hs. split.
-  - eapply L0_step; eauto.
-  - eapply L1_step; eauto.
+  intros st c st' l (H0 & H1 & H2 & H3 & H4) Hs.
+  split; [eapply L0_step; eauto | split; [eapply L1_step; eauto | split; [eapply L2_step; eauto |
+  split; [eapply L3_step; eauto | eapply L4_step; eauto]]]].
 Qed.
 
 Lemma Inv_exec : forall sched st, Inv st -> Inv (fold_left (exec1 P) sched st).
@@ -35,7 +35,7 @@ Definition no_owner (st : state) : Prop := forall j, wk_owner (wpc (wk st j)) = 
 
 Theorem one_at_a_time : forall sched j k,
   wk_owner (wpc (wk (run P sched) j)) = true -> wk_owner (wpc (wk (run P sched) k)) = true -> j = k.
-Proof. intros sched j k. destruct (Inv_run sched) as [_ H1]. apply (l1_uniq _ H1). Qed.
+Proof. intros sched j k. destruct (Inv_run sched) as (_ & H1 & _). apply (l1_uniq _ H1). Qed.
 
 Theorem one_entry : forall sched,
   let st := run P sched in
@@ -44,10 +44,143 @@ Theorem one_entry : forall sched,
   (connected (sh st) = true -> requests (sh st) <> [] -> no_owner st -> io_handing (io st) = false ->
    queue (sh st) = 1).
 Proof.
-  intros sched st. destruct (Inv_run sched) as [_ H1]. fold st in H1. repeat split.
+  intros sched st. destruct (Inv_run sched) as (_ & H1 & _). fold st in H1. repeat split.
   - apply (l1_q _ H1).
   - apply (l1_qreq _ H1); auto.
   - intro j. apply (l1_qown _ H1); auto.
   - intros Hc Hr Hn Hh. apply (l1_cover _ H1); auto. rewrite Hh. discriminate.
+Qed.
+
+(* ---- C04_once: the service starts are a prefix of the arrivals (in arrival order, each at
+   most once), the application calls are the starts except possibly the last one *)
+
+Theorem once : forall sched,
+  let s := sh (run P sched) in
+  prefix (starts s) (arrivals s) /\ (starts s = execs s \/ exists x, starts s = execs s ++ [x]).
+Proof.
+  intros sched s. destruct (Inv_run sched) as (_ & _ & H2 & _). split.
+  - apply (l2_pre _ H2).
+  - apply (l2_ex _ H2).
+Qed.
+
+Lemma NoDup_app_l : forall (A : Type) (a b : list A), NoDup (a ++ b) -> NoDup a.
+Proof.
+  induction a as [|x a IH]; intros b H; simpl in *; [constructor|].
+  inversion H; subst. constructor.
+  - intro X. apply H2. apply in_or_app. auto.
+  - eapply IH; eauto.
+Qed.
+
+Lemma prefix_NoDup : forall (A : Type) (a b : list A), prefix a b -> NoDup b -> NoDup a.
+Proof. intros A a b [r ->] H. eapply NoDup_app_l; eauto. Qed.
+
+Corollary once_nodup : forall sched,
+  let s := sh (run P sched) in
+  NoDup (arrivals s) -> NoDup (starts s) /\ NoDup (execs s).
+Proof.
+  intros sched s Hn. destruct (once sched) as [Hp He]. fold s in Hp, He.
+  assert (Hs : NoDup (starts s)) by (eapply prefix_NoDup; eauto).
+  split; auto. destruct He as [E|[x E]].
+  - congruence.
+  - rewrite E in Hs. eapply NoDup_app_l; eauto.
+Qed.
+
+(* ---- C04_wire *)
+
+(* the full statement: for every schedule, what the client has received plus what is still
+   pending (or was discarded when the connection was closed) is exactly what was produced, and
+   what was produced is the units in order: the responses of the executed requests in order,
+   each contiguous, interim responses only between them *)
+Definition wire_statement (st : state) : Prop :=
+  let s := sh st in
+  wire s ++ pending s ++ discarded s = produced s /\
+  produced s = flat_map (utoks P) (units s) /\
+  resp_ids (units s) = execs s.
+
+Definition C04_wire_full : Prop := forall sched, wire_statement (run P sched).
+
+Theorem wire_partial : forall sched,
+  wsc (sh (run P sched)) = false -> wire_statement (run P sched).
+Proof.
+  intros sched Hw. destruct (Inv_run sched) as (_ & _ & _ & H3 & _). specialize (H3 Hw).
+  unfold wire_statement, pending. repeat split.
+  - apply (o_wire _ _ H3).
+  - apply (o_prod _ _ H3).
+  - apply (o_ids _ _ H3).
+Qed.
+
+(* every response but the one being written is complete, while the connection is open *)
+Theorem complete_partial : forall sched,
+  let st := run P sched in
+  wsc (sh st) = false -> connected (sh st) = true ->
+  (forall j, in_task (wpc (wk st j)) = false) -> Forall (complete P) (units (sh st)).
+Proof.
+  intros sched st Hw Hc Hn. destruct (Inv_run sched) as (_ & _ & _ & H3 & _). specialize (H3 Hw).
+  apply (o_done _ _ H3); auto.
+Qed.
+
+Theorem complete_partial_in_task : forall sched j,
+  let st := run P sched in
+  wsc (sh st) = false -> connected (sh st) = true -> in_task (wpc (wk st j)) = true ->
+  exists us n, units (sh st) = us ++ [UResp (w_cur (wk st j)) n] /\ Forall (complete P) us.
+Proof.
+  intros sched j st Hw Hc Hj. destruct (Inv_run sched) as (_ & _ & _ & H3 & _). specialize (H3 Hw).
+  destruct (o_task _ _ H3 j Hj) as (_ & _ & us & E & F). exists us, (off_now P (wk st j)). split; auto.
+Qed.
+
+(* ---- exactly once at quiescence *)
+
+Lemma all_parked_spec : forall n st, all_parked n st = true ->
+  forall j, j < n -> is_parked (wpc (wk st j)) = true /\ ~ In j (qnotified (sh st)).
+Proof.
+  induction n as [|n IH]; intros st H j Hj; [lia|].
+  simpl in H. apply andb_true_iff in H. destruct H as [H Hr]. apply andb_true_iff in H. destruct H as [Hp Hn].
+  destruct (Nat.eq_dec j n) as [->|N].
+  - split.
+    + destruct (wpc (wk st n)); try discriminate; reflexivity.
+    + intro X. apply negb_true_iff in Hn. assert (existsb (Nat.eqb n) (qnotified (sh st)) = true).
+      { apply existsb_exists. exists n. split; auto. apply Nat.eqb_refl. }
+      congruence.
+  - apply IH; auto. lia.
+Qed.
+
+Theorem quiescent_exactly_once : forall sched,
+  let st := run P sched in
+  1 <= p_nw P -> all_parked (p_nw P) st = true -> io_in_add_task (io st) = false ->
+  connected (sh st) = true -> closing (sh st) = false ->
+  requests (sh st) = [] /\ execs (sh st) = arrivals (sh st).
+Proof.
+  intros sched st Hnw Hpk Hio Hc Hcl.
+  destruct (Inv_run sched) as (H0 & H1 & H2 & _ & H4). fold st in H0, H1, H2, H4.
+  pose proof (all_parked_spec _ _ Hpk) as Hall.
+  assert (Hpc : forall j, wpc (wk st j) = WParked \/ wpc (wk st j) = WAcqD).
+  { intro j. destruct (Nat.lt_ge_cases j (p_nw P)) as [L|G].
+    - left. destruct (Hall j L) as [X _]. destruct (wpc (wk st j)); try discriminate; reflexivity.
+    - right. rewrite (q_out _ _ H4 j G). reflexivity. }
+  assert (Hno : forall j, wk_owner (wpc (wk st j)) = false) by (intro j; destruct (Hpc j) as [X|X]; rewrite X; reflexivity).
+  assert (Hns : forall j, serving (wpc (wk st j)) = false) by (intro j; destruct (Hpc j) as [X|X]; rewrite X; reflexivity).
+  assert (Hq : queue (sh st) = 0).
+  { destruct (queue (sh st)) eqn:Eq; auto. exfalso.
+    destruct (q_live _ _ H4 Hnw ltac:(lia)) as [[j [J1 J2]]|[X|X]].
+    - destruct (Hall j J1) as [Y _]. destruct (wpc (wk st j)); simpl in *; discriminate.
+    - assert (Hex : exists x, In x (qnotified (sh st))).
+      { destruct (qnotified (sh st)) as [|x r]; [congruence|]. exists x. left. reflexivity. }
+      destruct Hex as [x Hx0].
+      assert (Hx : In x (qwait (sh st) ++ qnotified (sh st))) by (apply in_or_app; right; exact Hx0).
+      apply (q_w _ _ H4) in Hx. destruct Hx as [Hx _]. destruct (Hall x Hx) as [_ Z]. apply Z. exact Hx0.
+    - unfold io_in_add_task in Hio. unfold io_at_notify in X. destruct (ipc (io st)); try discriminate. }
+  assert (Hr : requests (sh st) = []).
+  { destruct (requests (sh st)) eqn:Er; auto. exfalso.
+    assert (queue (sh st) = 1).
+    { apply (l1_cover _ H1); auto; try (rewrite Er; discriminate).
+      intro X. unfold io_handing in X. unfold io_in_add_task in Hio. destruct (ipc (io st)); try discriminate. }
+    lia. }
+  split; auto.
+  assert (Hlive : live (sh st)) by (left; auto).
+  pose proof (l2_arr _ H2 Hlive) as A. pose proof (l2_idle _ H2 Hlive Hns) as B.
+  rewrite Hr, app_nil_r in A.
+  destruct (list_eq_dec Nat.eq_dec (starts (sh st)) (execs (sh st))) as [E|N].
+  - congruence.
+  - destruct (l2_ex2 _ H2 N) as [[j Hj]|[X _]]; [rewrite Hns in Hj; discriminate | congruence].
 Qed.
 End Run.
